@@ -41,6 +41,7 @@ import (
 	"github.com/Cloud-Foundations/keymaster/lib/instrumentedwriter"
 	"github.com/Cloud-Foundations/keymaster/lib/server/aws_identity_cert"
 	"github.com/Cloud-Foundations/keymaster/lib/simplestorage"
+	"github.com/duo-labs/webauthn/webauthn"
 	"github.com/go-jose/go-jose/v4"
 	"github.com/go-jose/go-jose/v4/jwt"
 	"golang.org/x/crypto/ssh"
@@ -214,6 +215,11 @@ func newWorld(o vWorldOpts) *vWorld {
 		})
 		vMust(err)
 	}
+	{
+		var err error
+		st.webAuthn, err = webauthn.New(&webauthn.Config{RPDisplayName: "Keymaster Server", RPID: vHost, RPOrigin: "https://" + vHost})
+		vMust(err)
+	}
 	w := &vWorld{st: st, dir: dir, sealed: o.Sealed}
 	w.pw = &vPwBackend{pw: map[string]string{"alice": "pw-alice", "bob": "pw-bob", "admin": "pw-admin", "carol": "pw-carol"}}
 	st.passwordChecker = w.pw
@@ -380,6 +386,10 @@ func (w *vWorld) buildRequest(q vReq) *http.Request {
 		ctype = q.BodyType
 	} else if q.Form != nil && q.Method != "GET" {
 		body = strings.NewReader(q.Form.Encode())
+		ctype = "application/x-www-form-urlencoded"
+	}
+	if body == nil && q.Method != "GET" && q.Method != "HEAD" {
+		body = strings.NewReader("") // a real client always sends a (possibly empty) body with POST
 		ctype = "application/x-www-form-urlencoded"
 	}
 	target := q.Path
